@@ -144,7 +144,20 @@ func H_C15_history() {
 	for s := 0; s < k; s++ {
 		p := "op" + itoa(s)
 		tag := "after " + p
-		switch verif.Choice(p+".kind", 9) {
+		switch verif.Choice(p+".kind", 10) {
+		case 9: // an object is emptied by removals and then receives list elements (and the other way round)
+			h, err := c.Child("k", -1)
+			n := model.get("k")
+			if err != nil || n == nil || n.Kind != kCfg || len(n.List) > 0 {
+				return
+			}
+			for _, key := range append([]string{}, n.Keys...) {
+				removed, err := h.Remove(key, -1)
+				verif.Assert(err == nil && removed, "C15/emptying an object accepted")
+			}
+			verif.Assert(h.Merge([]interface{}{uint64(1), uint64(2)}) == nil, "C15/merge of a list into an emptied object accepted")
+			model.set("k", nList(nUint(1), nUint(2)))
+			verif.Reach("emptied object became a list")
 		case 8: // the root (or an ancestor) stored below itself through intermediate names that do not exist yet
 			snapshot := model.clone()
 			if verif.Choice(p+".what", 2) == 0 {
